@@ -247,6 +247,14 @@ class C01(ScheduleEnumerationMixin, EngineCheck):
 @st.composite
 def collabs(draw, faults=True):
     ems = []
+    if faults and draw(st.integers(0, 5)) == 0:
+        # directed: one manager raises inside a node callback next to manager(s) that suspend inside the same callback
+        hook = draw(st.sampled_from(['on_node_start', 'on_node_complete']))
+        ems = [{'gated': True} for _ in range(draw(st.integers(1, 2)))]
+        ems.insert(draw(st.integers(0, len(ems))),
+                   {'gated': draw(st.booleans()), 'raise': {f'{hook}:{draw(st.integers(1, 3))}': True}})
+        store = {'gated': draw(st.booleans()), 'write_once': False} if draw(st.integers(0, 3)) == 0 else None
+        return {'ems': ems, 'store': store}
     for _ in range(draw(st.sampled_from([0, 0, 1, 1, 2]))):
         em = {'gated': draw(st.booleans())}
         if faults and draw(st.integers(0, 2)) == 0:
